@@ -186,7 +186,7 @@ Proof.
 Qed.
 
 Definition failed_writer (w : writer) (o : outcome) : writer :=
-  {| w_op := w_op w; w_attempt := w_attempt w; w_docseq := 0; w_unusedseqs := []; w_prep := None; w_out := Some o |}.
+  {| w_op := w_op w; w_attempt := w_attempt w; w_matchrev := w_matchrev w; w_docseq := 0; w_unusedseqs := []; w_prep := None; w_out := Some o |}.
 
 Lemma fail_case s i w ds us o extra l' :
   Inv s -> nth_error (ws s) i = Some w ->
@@ -207,7 +207,7 @@ Qed.
 Section Fixed.
   Variable ac : bool.
   Variable tab : digtab.
-  Notation stepT := (step true ac tab).
+  Notation stepT := (step true false ac tab).
 
   Lemma prepare_inv s i w : Inv s -> nth_error (ws s) i = Some w -> w_out w = None -> w_prep w = None ->
     Inv (prepare true ac tab s i w).
@@ -216,7 +216,8 @@ Section Fixed.
     assert (Hsame : Permutation (carried_seqs (w_docseq w) (w_unusedseqs w)) ([] ++ wcar w)) by reflexivity.
     assert (He0 : extra_ok s [] (last s)) by (left; auto).
     set (plan := match w_push (w_op w) with [] => _ | _ => _ end).
-    destruct plan as [[| |newrevs]|] eqn:Eplan; cbn [finish_failed].
+    destruct plan as [[| | |newrevs]|] eqn:Eplan; cbn [finish_failed].
+    - apply fail_case with (extra := []); auto; discriminate.
     - apply fail_case with (extra := []); auto; discriminate.
     - apply fail_case with (extra := []); auto; discriminate.
     - destruct (w_reject (w_op w)); [apply fail_case with (extra := []); auto; discriminate|].
@@ -226,7 +227,8 @@ Section Fixed.
       + (* prepared *)
         assert (Hnr : newrevs <> []).
         { subst plan. destruct (w_push (w_op w)) eqn:Epush.
-          - destruct (put_check _ _ _ _); [|discriminate]. destruct (dig_lookup _ _); inv Eplan. discriminate.
+          - destruct (put_check _ _ _ _); [|discriminate]. destruct (dig_lookup _ _); [|discriminate].
+            destruct (has_rev _ _); inv Eplan. discriminate.
           - inv Eplan. eapply push_check_add; eauto. }
         match goal with |- Inv {| st := _; last := ?l; released := released s ++ []; ws := set_nth i ?w' _; commits := _ |} =>
           replace (released s ++ []) with (released s ++ ([] : list N)) by reflexivity;
@@ -251,15 +253,15 @@ Section Fixed2.
   Variable tab : digtab.
 
   Lemma write_inv s i w p : Inv s -> nth_error (ws s) i = Some w -> w_out w = None -> w_prep w = Some p ->
-    Inv (write s i w p).
+    Inv (write false s i w p).
   Proof.
     intros I Hn Ho Hp. pose proof (inv_prep s I i w p Hn Hp) as (_ & Hds & Hus & Hpos & Hle & Himp).
-    unfold write. destruct (p_cas p =? d_cas (st s)) eqn:Ecas.
+    unfold write, write_gate. cbn [andb]. rewrite orb_false_r. destruct (p_cas p =? d_cas (st s)) eqn:Ecas.
     - apply N.eqb_eq in Ecas. destruct (Himp Ecas) as (Hgt & Hcas & nr & Htree & Hin).
       destruct (w_fail_write (w_op w)).
       + cbn [finish_failed]. apply (fail_case s i w (w_docseq w) (w_unusedseqs w) OFailed [] (last s) I Hn); [reflexivity | left; auto | discriminate].
       + (* commit *)
-        set (wa := {| w_op := w_op w; w_attempt := w_attempt w; w_docseq := 0; w_unusedseqs := []; w_prep := None;
+        set (wa := {| w_op := w_op w; w_attempt := w_attempt w; w_matchrev := w_matchrev w; w_docseq := 0; w_unusedseqs := []; w_prep := None;
                       w_out := Some (OAck (p_rev p) (d_seq (p_doc p))) |}).
         set (c := {| c_rev := p_rev p; c_parent := rev_parent_of (p_doc p) (p_rev p); c_seq := d_seq (p_doc p);
                      c_unused := d_unused (p_doc p); c_prevseq := d_seq (st s) |}).
@@ -306,7 +308,7 @@ Section Fixed2.
       + intros r q H. cbn in H. discriminate.
   Qed.
 
-  Lemma step_inv s e : Inv s -> Inv (step true ac tab s e).
+  Lemma step_inv s e : Inv s -> Inv (step true false ac tab s e).
   Proof.
     intros I. destruct e as [i|i]; cbn [step]; destruct (nth_error (ws s) i) as [w|] eqn:Hn; auto;
       destruct (w_out w) eqn:Ho; auto; destruct (w_prep w) as [p|] eqn:Hp; auto.
@@ -314,7 +316,7 @@ Section Fixed2.
     - apply write_inv; auto.
   Qed.
 
-  Theorem run_inv ops sched : Inv (run true ac tab ops sched).
+  Theorem run_inv ops sched : Inv (run true false ac tab ops sched).
   Proof.
     unfold run. generalize (init_inv ops). generalize (init_world ops) as s.
     induction sched as [|e r IH]; intros s I; cbn [fold_left]; [exact I|]. apply IH, step_inv, I.
